@@ -131,6 +131,7 @@ pub fn run_one(seed: u64, profile: Profile, thorough: bool, mk: MkMonitors, stop
 
 /// Replay an explicit event list on the genesis of (seed, profile, thorough).
 pub fn replay_events(seed: u64, profile: Profile, thorough: bool, events: &[HEvent], mk: MkMonitors) -> Vec<Violation> {
+    let known = load_known_findings();
     let (_g, mut ledger) = Gen::new(seed, profile, thorough);
     let mut monitors = mk();
     let mut cov = Coverage::default();
@@ -140,6 +141,8 @@ pub fn replay_events(seed: u64, profile: Profile, thorough: bool, events: &[HEve
     let mut all = Vec::new();
     for (idx, ev) in events.iter().enumerate() {
         let (_o, v) = apply_event(&mut ledger, idx, ev, &mut monitors, &mut cov);
+        // listed known findings neither stop a replay nor count as the violation being replayed / minimised
+        let v: Vec<Violation> = v.into_iter().filter(|x| is_known(&known, x).is_none()).collect();
         if !v.is_empty() {
             all.extend(v);
             return all;
